@@ -138,3 +138,30 @@ MUTATIONS += [
     ("vinegar-attr-values-stringified", ["C09"], V, "            if not brine.dumpable(attrval):\n                attrval = repr(attrval)",
      "            if not isinstance(attrval, (int, str)):\n                attrval = repr(attrval)"),
 ]
+
+SV = "rpyc/core/service.py"
+HP = "rpyc/utils/helpers.py"
+MUTATIONS += [
+    # ---- C06: attribute policy
+    ("config-default-not-copied", ["C06"], P, "        self._config = DEFAULT_CONFIG.copy()", "        self._config = DEFAULT_CONFIG"),
+    ("config-callers-dict-used", ["C06"], P, "        self._config = DEFAULT_CONFIG.copy()\n        self._config.update(config)",
+     "        for _k, _v in DEFAULT_CONFIG.items():\n            config.setdefault(_k, _v)\n        self._config = config"),
+    ("public-rule-without-underscore-test", ["C06"], P, '        plain |= config["allow_public_attrs"] and not name.startswith("_")',
+     '        plain |= config["allow_public_attrs"] and not name.startswith("__")'),
+    ("twin-ignores-allow-exposed", ["C06"], P, "        has_exposed = prefix and hasattr(obj, prefix + name)",
+     '        has_exposed = hasattr(obj, config["exposed_prefix"] + name)'),
+    ("delattr-keyed-on-setattr", ["C06"], P, '"_rpyc_delattr", "allow_delattr", delattr)', '"_rpyc_delattr", "allow_setattr", delattr)'),
+    ("name-type-check-dropped", ["C06"], P, '        elif type(name) is not str:\n            raise TypeError("name must be a string")',
+     '        elif type(name) is not str:\n            name = str(name)'),
+    ("cmp-bare-getattr", ["C06", "C07"], P, '            return self._access_attr(type(obj), op, (), "_rpyc_getattr", "allow_getattr", getattr)(obj, other)',
+     "            return getattr(type(obj), op)(obj, other)"),
+    ("ctxexit-bare-getattr", ["C06", "C07"], P, '        return self._handle_getattr(obj, "__exit__")(exc, typ, tb)', '        return getattr(obj, "__exit__")(exc, typ, tb)'),
+    ("oldslicing-bare-getattr", ["C06", "C07"], P, "            getitem = self._handle_getattr(obj, attempt)", "            getitem = getattr(obj, attempt)"),
+    ("slave-updates-default-config", ["C06"], SV, "        self._conn._config.update(dict(", "        import rpyc.core.protocol as _p\n        _p.DEFAULT_CONFIG.update(dict(allow_all_attrs=True))\n        self._conn._config.update(dict("),
+    ("restricted-reads-check-wattrs", ["C06"], HP, "            if name not in attrs:\n                raise AttributeError(name)\n            return getattr(obj, name)",
+     "            if name not in wattrs:\n                raise AttributeError(name)\n            return getattr(obj, name)"),
+    ("safe-attrs-shared-and-grown", ["C06"], P, "        has_exposed = prefix and hasattr(obj, prefix + name)",
+     '        has_exposed = prefix and hasattr(obj, prefix + name)\n        if has_exposed and config["allow_setattr"]:\n            config["safe_attrs"].add(name)'),
+    ("exposed-prefix-match-anywhere", ["C06"], P, '        plain |= config["allow_exposed_attrs"] and name.startswith(prefix)', '        plain |= config["allow_exposed_attrs"] and prefix in name'),
+    ("hook-lookup-on-instance", ["C06"], P, "        accessor = getattr(type(obj), overrider, None)", "        accessor = getattr(obj, overrider, None)"),
+]
